@@ -1,0 +1,101 @@
+//! Verification hooks (compiled only with the `verif-hooks` cargo feature).
+//!
+//! Nothing in here changes what the samplers compute unless a harness explicitly installs a
+//! sink, a callback or an override. Events are delivered to a *thread-local* sink (kernels run
+//! on the calling thread), the progress protocol reports to a *process-wide* callback because
+//! its workers and its reporter live on threads the library spawns itself.
+
+use burn::prelude::*;
+use std::cell::RefCell;
+use std::collections::VecDeque;
+use std::sync::{Arc, RwLock};
+
+/// Receives `(event name, integer fields, float fields)`.
+pub type Sink = Box<dyn FnMut(&str, &[i64], &[f64])>;
+/// Receives `(event name, integer fields)` from any thread.
+pub type GlobalCb = Arc<dyn Fn(&str, &[u64]) + Send + Sync>;
+
+thread_local! {
+    static SINK: RefCell<Option<Sink>> = const { RefCell::new(None) };
+    static HMC_MOMENTA: RefCell<VecDeque<Vec<f64>>> = const { RefCell::new(VecDeque::new()) };
+    static HMC_UNIFORMS: RefCell<VecDeque<Vec<f64>>> = const { RefCell::new(VecDeque::new()) };
+}
+
+static GLOBAL: RwLock<Option<GlobalCb>> = RwLock::new(None);
+
+/// Installs (or removes) the event sink of the current thread.
+pub fn set_sink(sink: Option<Sink>) {
+    SINK.with(|s| *s.borrow_mut() = sink);
+}
+
+/// True iff the current thread has a sink (lets call sites skip building payloads).
+pub fn enabled() -> bool {
+    SINK.with(|s| s.borrow().is_some())
+}
+
+/// Delivers one event to the current thread's sink; a no-op without one.
+pub fn emit(name: &str, ints: &[i64], floats: &[f64]) {
+    SINK.with(|s| {
+        if let Some(f) = s.borrow_mut().as_mut() {
+            f(name, ints, floats)
+        }
+    });
+}
+
+/// Installs (or removes) the process-wide callback used by the progress protocol.
+pub fn set_global(cb: Option<GlobalCb>) {
+    *GLOBAL.write().unwrap() = cb;
+}
+
+/// Delivers one event to the process-wide callback; a no-op without one.
+pub fn global_event(name: &str, args: &[u64]) {
+    let cb = GLOBAL.read().unwrap().clone();
+    if let Some(cb) = cb {
+        cb(name, args)
+    }
+}
+
+/// Scalar to `f64` (disambiguates `num_traits::ToPrimitive` from burn's `ToElement`).
+pub fn f<T: num_traits::ToPrimitive>(x: T) -> f64 {
+    num_traits::ToPrimitive::to_f64(&x).expect("verif: scalar to f64")
+}
+
+/// Flattens a float tensor to `f64`s (row-major).
+pub fn flat<B: Backend, const D: usize>(t: &Tensor<B, D>) -> Vec<f64> {
+    t.to_data()
+        .convert::<f64>()
+        .to_vec::<f64>()
+        .expect("verif: tensor to f64")
+}
+
+/// Queues momenta (row-major `[n_chains, dim]`) for the next `HMC::step` on this thread.
+pub fn push_hmc_momenta(m: Vec<f64>) {
+    HMC_MOMENTA.with(|q| q.borrow_mut().push_back(m));
+}
+
+/// Queues acceptance uniforms (`[n_chains]`) for the next `HMC::step` on this thread.
+pub fn push_hmc_uniforms(u: Vec<f64>) {
+    HMC_UNIFORMS.with(|q| q.borrow_mut().push_back(u));
+}
+
+/// Returns the queued momenta as a tensor shaped like `drawn`, or `drawn` itself.
+pub fn hmc_momenta<B: Backend>(drawn: Tensor<B, 2>) -> Tensor<B, 2> {
+    match HMC_MOMENTA.with(|q| q.borrow_mut().pop_front()) {
+        Some(m) => {
+            let dims = drawn.dims();
+            Tensor::<B, 2>::from_data(TensorData::new(m, dims), &drawn.device())
+        }
+        None => drawn,
+    }
+}
+
+/// Returns the queued uniforms as a tensor shaped like `drawn`, or `drawn` itself.
+pub fn hmc_uniforms<B: Backend>(drawn: Tensor<B, 1>) -> Tensor<B, 1> {
+    match HMC_UNIFORMS.with(|q| q.borrow_mut().pop_front()) {
+        Some(u) => {
+            let dims = drawn.dims();
+            Tensor::<B, 1>::from_data(TensorData::new(u, dims), &drawn.device())
+        }
+        None => drawn,
+    }
+}
